@@ -524,11 +524,13 @@ def call_bool(cid, P, ism, which, symmetry, ctx=''):
         chk.count('skipped_full_cap')
         return
     errs = []
+    rec = ConstraintRecorder(ism)
     try:
         got = bool(getattr(ism, which)(symmetry=symmetry))
     except Exception as e:  # noqa
         got = None
         errs.append('exception %s: %s' % (type(e).__name__, e))
+    cons = rec.take()
     want = bool(full) and (which == 'subgraph_is_isomorphic' or len(P.g) == len(P.sg))
     if got is not None and got != want:
         errs.append('%s(symmetry=%s) returns %s although %d induced subgraph isomorphisms exist (|graph|=%d, |pattern|=%d)'
@@ -536,6 +538,9 @@ def call_bool(cid, P, ism, which, symmetry, ctx=''):
     op = 'isiso' if which == 'is_isomorphic' else 'subiso'
     add('%s-%s' % (cid, op), line(op, P.gn, P.ge, P.sn, P.se), enc(got), [ctx + e for e in errs],
         len(P.sg) >= 3 and (bool(full) or P.naut > 1))
+    # the transcribed wrapper on the transcribed find_isomorphisms, with the constraints of the real call
+    add('%s-tbool' % cid, line('tbool', 1 if which == 'is_isomorphic' else 0, P.edge_none, P.gn, P.ge, P.sn, P.se, cons),
+        enc(got), [], len(P.sg) >= 3 and (bool(full) or P.naut > 1))
 
 
 def run_pair(cid, g, sg, do_iso=True, do_lcs=False, explicit=False, alias=False):
